@@ -21,6 +21,12 @@ CHECKS = {
             'in every reached state balances, position size, live orders and every accept/reject verdict are compared with an exact rational cash account.',
             'Sells are reduce-only as the strategy layer submits them; verdicts within 1e-9 of a threshold and last-bit dust are dont-care. Depth 5 quick / 6 thorough.',
             'DESIGN.md 3/C04'),
+    'C03': ('opseq', 'explicit-state BFS over submit/execute/cancel/mark histories on the real futures exchange (1-2 symbols, one wallet), exact average-cost margin account compared in every state',
+            'Every history over long/short, market/limit/stop, reduce-only, oversize reductions, flips, price marks, submit+cancel probes and 9/10/11-order ladders (margin table '
+            'bucket boundary) up to the stated depth runs on the real FuturesExchange/Position/Order objects with the real strategy close path; wallet, size, entry, uPnL, '
+            'available margin, live orders and every accept/reject verdict are compared with an exact rational reference in every state.',
+            'Reduce-only orders only on the closing side of an open position; verdicts within 1e-9 of the threshold are dont-care. Depth 4-5 quick / 5-6 thorough, <=2-3 live orders.',
+            'DESIGN.md 3/C03'),
 }
 
 NOT_APPLICABLE = {}
